@@ -1,6 +1,315 @@
-//! C02 — not implemented yet.
+//! C02 — Tokens move only with the holder's authorization or a live allowance.
+//! Safety oracle written from the statement: a balance may decrease only in a call
+//! whose exact authorization entry of the holder was attached, or in a
+//! transfer_from/burn_from with the spender's entry attached and a live, sufficient
+//! allowance (which then drops by exactly the amount).  Allowances never exceed
+//! "last approved minus spent", are zero after live_until, and change only through
+//! the owner's approve or by being spent.
+
+use super::ftcore::*;
 use crate::engine::*;
+use crate::envx;
+use proptest::prelude::*;
+use serde::{Deserialize, Serialize};
+use std::collections::BTreeMap;
+
+#[derive(Clone, Debug, Serialize, Deserialize)]
+pub struct Case {
+    pub flavor: Flavor,
+    pub n: u8,
+    pub seq: u32,
+    pub small_ttl: bool,
+    pub ops: Vec<Op>,
+}
+
+fn weights(f: Flavor) -> OpWeights {
+    OpWeights {
+        mint: if f.has_mint() { 3 } else { 0 },
+        transfer: 4,
+        transfer_from: 8,
+        approve: 7,
+        burn: if f.has_burn() { 2 } else { 0 },
+        burn_from: if f.has_burn() { 5 } else { 0 },
+        advance: 5,
+        list: 0,
+        pause: 0,
+        exact_auth: 8,
+        spend_profile: true,
+    }
+}
+
+fn strategy_for(f: Flavor, tier: Tier) -> BoxedStrategy<Case> {
+    let max_ops = tier.pick(40usize, 80usize);
+    (2u8..=4, 100u32..5000, proptest::bool::weighted(0.5), proptest::collection::vec(op_strategy(&weights(f)), 1..max_ops))
+        .prop_map(move |(n, seq, small_ttl, ops)| Case { flavor: f, n, seq, small_ttl, ops })
+        .boxed()
+}
+
+/// (amount, live_until) per (owner, spender) as last approved minus spent
+#[derive(Default)]
+struct AllowModel {
+    m: BTreeMap<(usize, usize), (i128, u32)>,
+}
+impl AllowModel {
+    fn visible(&self, o: usize, s: usize, now: u32) -> i128 {
+        match self.m.get(&(o, s)) {
+            Some((a, until)) if *until >= now => *a,
+            _ => 0,
+        }
+    }
+}
+
+fn fname(k: Kind) -> &'static str {
+    match k {
+        Kind::Mint => "mint",
+        Kind::Burn => "burn",
+        Kind::BurnFrom => "burn_from",
+        Kind::Transfer => "transfer",
+        Kind::TransferFrom => "transfer_from",
+        Kind::Approve => "approve",
+        Kind::List => "list",
+        Kind::Pause => "pause",
+    }
+}
+
+fn check_allowances(t: &Tok, d: &Dump, am: &AllowModel, what: &str, ctx: &mut Ctx) -> R {
+    let now = envx::seq(&t.e);
+    let n = d.bal.len();
+    for o in 0..n {
+        for s in 0..n {
+            let vis = am.visible(o, s, now);
+            ensure!(
+                d.allow[o][s] <= vis,
+                "C02/allowance/exceeds-approved-minus-spent",
+                "{what}: allowance({o},{s}) = {} at ledger {now} but last approved minus spent (and expiry {:?}) allows at most {vis}",
+                d.allow[o][s],
+                am.m.get(&(o, s))
+            );
+            if d.allow[o][s] < vis {
+                ctx.class("allowance_stricter_than_model");
+            }
+        }
+    }
+    Ok(())
+}
+
+pub fn run(case: &Case, ctx: &mut Ctx) -> R {
+    let max_ttl = if case.small_ttl { 300 } else { envx::BIG_TTL };
+    let t = Tok::setup(case.flavor, case.n as usize, case.seq, max_ttl);
+    let e = &t.e;
+    // all gates open: C16 owns the gates
+    if case.flavor.is_allow() {
+        t.setup_lists(0xffff).map_err(|er| violation("C02/setup/list", er))?;
+    }
+    // working capital so that spends can succeed: mint (or distribute the constructor supply)
+    let mut d = t.dump();
+    for i in 0..t.accts.len() {
+        if case.flavor.has_mint() {
+            let c = Call {
+                func: "mint",
+                args: vec![soroban_sdk::IntoVal::into_val(&t.accts[i], e), soroban_sdk::IntoVal::into_val(&(1000i128 + i as i128), e)],
+                required: if case.flavor.mint_needs_auth() { vec![t.admin.clone()] } else { vec![] },
+                amount_arg: Some(1),
+            };
+            let (r, _) = exec(&t, &c, &AuthMode::Exact);
+            ensure!(r.is_ok(), "C02/setup/mint", "set-up mint failed: {:?}", r);
+        } else if i > 0 {
+            let c = Call {
+                func: "transfer",
+                args: vec![
+                    soroban_sdk::IntoVal::into_val(&t.accts[0], e),
+                    soroban_sdk::IntoVal::into_val(&t.accts[i], e),
+                    soroban_sdk::IntoVal::into_val(&(1000i128 + i as i128), e),
+                ],
+                required: vec![t.accts[0].clone()],
+                amount_arg: Some(2),
+            };
+            let (r, _) = exec(&t, &c, &AuthMode::Exact);
+            ensure!(r.is_ok(), "C02/setup/distribute", "set-up transfer failed: {:?}", r);
+        }
+    }
+    d = { let _ = d; t.dump() };
+
+    let mut am = AllowModel::default();
+    let mut hist = Hist::default();
+    let (mut ok_spend, mut rej_auth, mut rej_spend) = (false, false, false);
+
+    for (step, op) in case.ops.iter().enumerate() {
+        let r = match t.resolve(op, &d, &mut hist) {
+            Step::Advanced => {
+                d = t.dump();
+                check_allowances(&t, &d, &am, "advance", ctx)?;
+                continue;
+            }
+            Step::Skipped => {
+                ctx.class("skipped_op");
+                continue;
+            }
+            Step::Call(r) => r,
+        };
+        let now = envx::seq(e);
+        let f = fname(r.kind);
+        let what = format!("step {step} {f}({:?}) at ledger {now}", op);
+        let (res, exact) = exec(&t, &r.call, &r.mode);
+        let d2 = t.dump();
+        ctx.op(res.is_ok());
+        let spend_pair = match r.kind {
+            Kind::TransferFrom | Kind::BurnFrom => Some((r.from.unwrap(), r.spender.unwrap())),
+            _ => None,
+        };
+        let approve_pair = if r.kind == Kind::Approve { Some((r.from.unwrap(), r.spender.unwrap())) } else { None };
+        let pre_vis = spend_pair.map(|(o, s)| am.visible(o, s, now));
+
+        if res.is_ok() {
+            let n = d.bal.len();
+            let decreased: Vec<usize> = (0..n).filter(|i| d2.bal[*i] < d.bal[*i]).collect();
+            let allow_changed: Vec<(usize, usize)> =
+                (0..n).flat_map(|o| (0..n).map(move |s| (o, s))).filter(|(o, s)| d2.allow[*o][*s] != d.allow[*o][*s]).collect();
+            if !exact {
+                // nobody documented to authorize this call did so exactly
+                ensure!(
+                    decreased.is_empty(),
+                    format!("C02/{f}/balance-decreased-without-authorization"),
+                    "{what}: auth mode {:?} (required authorizer's exact entry NOT attached) succeeded and decreased balances of {:?}",
+                    r.mode,
+                    decreased
+                );
+                ensure!(
+                    allow_changed.is_empty(),
+                    format!("C02/{f}/allowance-changed-without-authorization"),
+                    "{what}: auth mode {:?} succeeded and changed allowances {:?}",
+                    r.mode,
+                    allow_changed
+                );
+                ctx.class("unauthorized_noop_success");
+            }
+            for i in &decreased {
+                let justified = match r.kind {
+                    Kind::Transfer | Kind::Burn => r.from == Some(*i) && exact,
+                    Kind::TransferFrom | Kind::BurnFrom => {
+                        r.from == Some(*i) && exact && pre_vis.unwrap() >= r.amount && r.amount >= 0
+                    }
+                    _ => false,
+                };
+                ensure!(
+                    justified,
+                    format!("C02/{f}/unjustified-balance-decrease"),
+                    "{what}: balance of holder {i} went {} -> {} ; holder authorized: {}, model allowance before: {:?}, amount {}",
+                    d.bal[*i],
+                    d2.bal[*i],
+                    matches!(r.kind, Kind::Transfer | Kind::Burn) && exact,
+                    pre_vis,
+                    r.amount
+                );
+            }
+            // a successful allowance-based movement needs a live, sufficient allowance even when no balance decreased
+            if let Some((o, s)) = spend_pair {
+                if r.amount > 0 {
+                    ensure!(
+                        pre_vis.unwrap() >= r.amount,
+                        format!("C02/{f}/spent-without-live-allowance"),
+                        "{what}: succeeded for amount {} although the allowance ({o},{s}) approved-minus-spent (with expiry) is {:?}",
+                        r.amount,
+                        pre_vis
+                    );
+                    // drops by exactly the amount
+                    let before = d.allow[o][s];
+                    let after = d2.allow[o][s];
+                    ensure!(
+                        after == before - r.amount,
+                        format!("C02/{f}/allowance-not-reduced-exactly"),
+                        "{what}: allowance({o},{s}) went {before} -> {after}, expected {}",
+                        before - r.amount
+                    );
+                    let ent = am.m.entry((o, s)).or_insert((0, 0));
+                    ent.0 -= r.amount;
+                    ok_spend = true;
+                    ctx.class("allowance_spend_ok");
+                }
+            }
+            if let Some((o, s)) = approve_pair {
+                // exact (checked above via allow_changed when !exact); the owner approved (amount, live)
+                if exact {
+                    ctx.class("approve_ok");
+                    am.m.insert((o, s), (r.amount, r.live));
+                    if d2.allow[o][s] != am.visible(o, s, now) {
+                        ctx.class("approve_visible_differs");
+                    }
+                }
+            }
+            // allowances of unrelated pairs must not move within one call
+            for (o, s) in &allow_changed {
+                let related = spend_pair == Some((*o, *s)) || approve_pair == Some((*o, *s));
+                ensure!(
+                    related,
+                    format!("C02/{f}/foreign-allowance-changed"),
+                    "{what}: allowance({o},{s}) changed {} -> {} in a call that neither approves nor spends it",
+                    d.allow[*o][*s],
+                    d2.allow[*o][*s]
+                );
+            }
+        } else {
+            ensure!(d2 == d, format!("C02/{f}/failed-call-changed-state"), "{what}: failed but state changed");
+            if !exact {
+                rej_auth = true;
+                ctx.class(&format!("rejected_auth_mode"));
+            } else if let Some((o, s)) = spend_pair {
+                if r.amount >= 0 && d.bal[o] >= r.amount && am.visible(o, s, now) < r.amount {
+                    rej_spend = true;
+                    let expired = am.m.get(&(o, s)).map(|(a, u)| *u < now && *a >= r.amount).unwrap_or(false);
+                    ctx.class(if expired { "rejected_spend_expired" } else { "rejected_spend_insufficient" });
+                } else if r.amount >= 0 && d.bal[o] >= r.amount {
+                    ctx.class("refused_against_model");
+                }
+            }
+        }
+        check_allowances(&t, &d2, &am, &what, ctx)?;
+        // entry-point view of the touched pair agrees with the bulk read
+        if let Some((o, s)) = spend_pair.or(approve_pair) {
+            let hs = t.holders();
+            let a = t.api_allowance(&hs[o], &hs[s]).map_err(|er| violation("C02/api/allowance-failed", er))?;
+            ensure!(a == d2.allow[o][s], "C02/api/allowance-mismatch", "{what}: allowance() = {a}, storage read = {}", d2.allow[o][s]);
+        }
+        d = d2;
+    }
+    if ok_spend && rej_auth && rej_spend {
+        ctx.nontrivial = true;
+        ctx.class("nontrivial");
+    }
+    Ok(())
+}
+
+macro_rules! flavor_sub {
+    ($name:expr, $f:expr, $q:expr, $t:expr) => {{
+        fn strat(tier: Tier) -> BoxedStrategy<Case> {
+            strategy_for($f, tier)
+        }
+        gen_sub::<Case>($name, $q, $t, strat, run)
+    }};
+}
 
 pub fn property() -> Property {
-    Property { id: "C02", rule: "", subs: vec![], floors: vec![], assumptions: vec![] }
+    Property {
+        id: "C02",
+        rule: "case = (flavour with all gates open, 2..4 funded accounts, start ledger, small or large max TTL, history of <=40 (thorough 80) ops \
+               approve/transfer/transfer_from/burn/burn_from/mint/advance(to allowance expiry -1/0/+1) each with an auth mode Exact|Drop|Swap|Tamper|Surplus); \
+               non-trivial = contains a successful allowance spend AND a call rejected for its auth mode AND a spend rejected for expiry/insufficient allowance; distinct = distinct serialised case",
+        subs: vec![
+            flavor_sub!("plain", Flavor::Plain, 2500, 50000),
+            flavor_sub!("allow", Flavor::Allow, 1200, 24000),
+            flavor_sub!("block", Flavor::Block, 1200, 24000),
+            flavor_sub!("votes", Flavor::Votes, 1200, 24000),
+            flavor_sub!("ex-pausable", Flavor::ExPausable, 800, 16000),
+            flavor_sub!("ex-capped", Flavor::ExCapped, 500, 10000),
+            flavor_sub!("ex-allowlist", Flavor::ExAllow, 800, 16000),
+            flavor_sub!("ex-blocklist", Flavor::ExBlock, 500, 10000),
+            flavor_sub!("ex-votes", Flavor::ExVotes, 500, 10000),
+        ],
+        floors: vec![],
+        assumptions: vec![
+            "Soroban native test host (auth-tree matching, temporary-entry TTL, rollback) is trusted",
+            "plain actors are contract addresses with an accept-all account contract: 'X authorized the call' == 'an entry for X with exactly this invocation was attached'",
+            "list/pause gates are held open (owned by C16); RWA supervisory operations are out of scope as the statement says",
+        ],
+    }
 }
